@@ -6,6 +6,10 @@ SPEC = {
     'translators': ['constants'],
     'lean_modules': ['N2k.Props.Consts.C17', 'N2k.Props.C17'], 'props_files': ['N2k/Props/Consts/C17.lean', 'N2k/Props/C17.lean'],
     'case_start': ['enc', 'rnew'],
+    # node level: the same engine (ops fnew/fsend/frx), a real tNMEA2000 behind the mock driver forwarding to a memory stream
+    'extra': [{'engine': 'acti', 'harness': 'actifwd.cpp', 'case_start': ['fnew'],
+               'repo_srcs': ['N2kMsg.cpp', 'N2kStream.cpp', 'N2kMessages.cpp', 'N2kTimer.cpp', 'N2kGroupFunction.cpp',
+                             'N2kGroupFunctionDefaultHandlers.cpp', 'NMEA2000.cpp', 'ActisenseReader.cpp']}],
     'trusted_base': ["model N2k/Model/Actisense.lean transcribes SendInActisenseFormat/AddByteEscapedToBuf (N2kMsg.cpp) and "
                      "tActisenseReader (ActisenseReader.cpp) by hand; the index width (uint16_t) and buffer sizes (478, 300, 223) "
                      "are copied from the declarations, not extracted; little-endian host (GetBuf memcpy)",
@@ -15,8 +19,9 @@ SPEC = {
                      "(Cfg.stampLocal) learnt from the code by a probe; the oracle does not constrain MsgTime"],
     'assumptions': ["single-threaded use of a reader", "N2kStream::peek()/read() return the same next byte (a FIFO byte stream)",
                     "valid message = tN2kMsg::IsValid() (PGN != 0, DataLen > 0) with DataLen <= MaxDataLen",
-                    "the forwarding policy of NMEA2000.cpp (ForwardMessage) is not covered: only the direct call of "
-                    "SendInActisenseFormat, which forwarding uses unchanged"],
+                    "forwarding (actifwd.cpp): the node is open, its driver accepts every frame, received messages arrive complete "
+                    "(reassembly is C02, the send gate C04), the PGN classification (known/system/fast packet) is taken from the "
+                    "library; whether a message whose send was refused is forwarded is left open"],
 }
 MANIFEST = {
     'text': "Theorems over a hand model of the encoder and of the reader's state machine: (roundtrip) for EVERY valid message "
@@ -30,8 +35,8 @@ MANIFEST = {
             "byte other than 0x10 the next well-formed frame is reported, of two consecutive frames the second always is; "
             "splitting the stream between calls does not change the result. Tied to the C++ by a correspondence run (encoder: "
             "all lengths x escape counts x positions; reader: concatenations with garbage and 9 kinds of malformed frames, "
-            "split at every byte boundary, byte-at-a-time, readOut=false) under ASan/UBSan with an independent frame-grammar oracle.",
+            "split at every byte boundary, byte-at-a-time, readOut=false) under ASan/UBSan with an independent frame-grammar oracle; node level: a real tNMEA2000 forwarding to a memory stream in all modes x option combinations, oracle from the option documentation, policy decision functions in the model (C17_forwarding_policy, C17_forwarding_roundtrip).",
     'design_ref': 'DESIGN.md section 4, C17',
     'note': "Trusted: Lean kernel; hand transcription validated by differential runs only; sizes/widths copied by hand; "
-            "forwarding policy (NMEA2000.cpp) not modelled; tN2kMsg content after a failed read not modelled.",
+            "forwarding policy modelled as decision functions (send gate, reassembly, classification taken as given); tN2kMsg content after a failed read not modelled.",
 }
